@@ -466,6 +466,6 @@ def replay(path):
 MANIFEST = dict(
     level="proof",
     text="Coq theorems about a Gallina model of fggs/indices.py's axis algebra (eval bound, stride = affine form, index inverts eval, pattern injectivity = at most one backing element, unify soundness, antiunify generalises both arguments, bounded completeness of unify on typed axes) and of PatternedTensor (to_dense = denote, view operations, unary maps, binary operations through expansion); the model is tied to /repo by running both on generated typed axes/patterns, brute-force specifications judge every implementation output; every listed tensor operation and compositions of up to three are compared with torch on the denoted dense tensors; every PatternedTensor constructed inside the library is checked against the extracted representation invariant.",
-    note="Trusted: Coq kernel + vm_compute, extraction cross-checked against vm_compute, the Python harness (numbering of PhysicalAxis objects, independent evaluator of axes), torch's dense kernels as reference. The findings F1, F16, F16b, F21, F22 of this check are repaired in /repo and reverting any of the repairs is reported as a VIOLATION with a concrete failing input; one known finding remains (F23: exp/expm1 compute the default in float64, which overflows float32 tensors for defaults between 88.7 and 709.8). Open: unbounded unify completeness; binary operations with broadcasting; several operations are correspondence-only.",
+    note="Trusted: Coq kernel + vm_compute, extraction cross-checked against vm_compute, the Python harness (numbering of PhysicalAxis objects, independent evaluator of axes), torch's dense kernels as reference. All findings of this check (F1, F16, F16b, F21, F22, F23) are repaired in /repo; no known finding is left and reverting a repair is reported as a VIOLATION with a concrete failing input. Open: unbounded unify completeness; binary operations with broadcasting; several operations are correspondence-only.",
     technique="Coq proof (model + theorems) + model/implementation correspondence with brute-force specification oracles + differential testing against torch on denotations + runtime invariant monitor",
     design_ref="DESIGN.md section 6, C06; Appendix A.6; Appendix C")
